@@ -234,7 +234,7 @@ func RunRtmrCase(cs map[string]any, id int, seed int64) Result {
 			if len(digest) > 0 {
 				t.known[string(digest)] = callNo
 			}
-			out = Guard(10*time.Second, func() error { return rtmr.ExtendDigestClient(t, index, digest) })
+			out = Guard(90*time.Second, func() error { return rtmr.ExtendDigestClient(t, index, digest) })
 		} else {
 			var log []byte
 			if r["log"] == "nonempty" {
@@ -257,7 +257,7 @@ func RunRtmrCase(cs map[string]any, id int, seed int64) Result {
 			digest = s[:]
 			t.known[string(digest)] = callNo
 			// decoys: the other hashes of the same log must not be what gets written
-			out = Guard(10*time.Second, func() error { return rtmr.ExtendEventLogClient(t, index, h, log) })
+			out = Guard(90*time.Second, func() error { return rtmr.ExtendEventLogClient(t, index, h, log) })
 		}
 		evs = append(evs, t.events...)
 		t.events = nil
